@@ -13,7 +13,6 @@ use crate::node::Node;
 use crate::source::*;
 use crate::store::Store;
 use cgmath::*;
-use serde::de::DeserializeOwned;
 use serde::{Deserialize, Serialize};
 use std::collections::BTreeMap;
 use std::fmt::Debug;
@@ -154,7 +153,88 @@ impl<'a> Ctx<'a> {
     }
 }
 
-fn read_event<T: DeserializeOwned>(m: Medium, root: &Node, rf: &[RFault]) -> (Result<T, String>, Vec<FiredR>) {
+/// Everything the schedules need from one concrete instantiation. Implemented by macro for
+/// concrete types only: generic code here would have to *prove* `Decomposed<V, R>: Serialize` from
+/// cgmath's own where-clauses and would stop compiling when a change to cgmath adds a bound.
+pub trait Exo: Sized + Debug + PartialEq {
+    fn ser(&self, st: &mut Store) -> Result<(), SimError>;
+    fn de<'de>(d: De<'de>) -> Result<Self, SimError>;
+    fn json(&self) -> Result<String, String>;
+    fn json_pretty(&self) -> Result<Vec<u8>, String>;
+    fn from_str(s: &str) -> Result<Self, String>;
+    fn from_reader(b: &[u8]) -> Result<Self, String>;
+    fn from_slice(b: &[u8]) -> Result<Self, String>;
+    fn via_value(&self) -> Result<Self, String>;
+    /// JSON text of scale, rot, disp on their own
+    fn parts(&self) -> Result<[String; 3], String>;
+}
+
+macro_rules! exo {
+    ($($t:ty),+ $(,)?) => {
+        $(impl Exo for $t {
+            fn ser(&self, st: &mut Store) -> Result<(), SimError> {
+                self.serialize(st)
+            }
+            fn de<'de>(d: De<'de>) -> Result<Self, SimError> {
+                <$t as Deserialize>::deserialize(d)
+            }
+            fn json(&self) -> Result<String, String> {
+                serde_json::to_string(self).map_err(|e| e.to_string())
+            }
+            fn json_pretty(&self) -> Result<Vec<u8>, String> {
+                serde_json::to_vec_pretty(self).map_err(|e| e.to_string())
+            }
+            fn from_str(s: &str) -> Result<Self, String> {
+                serde_json::from_str(s).map_err(|e| e.to_string())
+            }
+            fn from_reader(b: &[u8]) -> Result<Self, String> {
+                serde_json::from_reader(b).map_err(|e| e.to_string())
+            }
+            fn from_slice(b: &[u8]) -> Result<Self, String> {
+                serde_json::from_slice(b).map_err(|e| e.to_string())
+            }
+            fn via_value(&self) -> Result<Self, String> {
+                serde_json::to_value(self).and_then(serde_json::from_value).map_err(|e| e.to_string())
+            }
+            fn parts(&self) -> Result<[String; 3], String> {
+                Ok([
+                    serde_json::to_string(&self.scale).map_err(|e| e.to_string())?,
+                    serde_json::to_string(&self.rot).map_err(|e| e.to_string())?,
+                    serde_json::to_string(&self.disp).map_err(|e| e.to_string())?,
+                ])
+            }
+        })+
+    };
+}
+
+exo!(
+    Decomposed<Vector3<f64>, [f64; 4]>,
+    Decomposed<Vector2<f32>, (f32, f64)>,
+    Decomposed<Vector3<f32>, String>,
+    Decomposed<Vector3<f64>, Option<Quaternion<f64>>>,
+    Decomposed<Vector2<f64>, UserRot>,
+    Decomposed<Vector3<f64>, Collide>,
+    Decomposed<UserVec, Quaternion<f64>>,
+    Decomposed<UserVec, UserRot>,
+    Decomposed<Vector2<f64>, Vec<u8>>,
+    Decomposed<Vector3<f32>, bool>,
+    Decomposed<Vector3<f32>, char>,
+    Decomposed<Vector3<f32>, ()>,
+    Decomposed<Vector3<f64>, u128>,
+    Decomposed<Vector3<f64>, i128>,
+    Decomposed<Vector3<f64>, u64>,
+    Decomposed<Vector2<f32>, BTreeMap<String, f32>>,
+    Decomposed<Vector3<f32>, Box<Matrix2<f32>>>,
+    Decomposed<Vector3<f64>, Wrapping<i32>>,
+    Decomposed<Vector3<f64>, PhantomData<u8>>,
+    Decomposed<Vector3<f64>, Decomposed<Vector2<f32>, Basis2<f32>>>,
+    Decomposed<Vector3<f64>, Euler<f64>>,
+    Decomposed<Vector1<f64>, Vector3<Rad<f32>>>,
+    Decomposed<Vector3<i64>, Quaternion<i64>>,
+    Decomposed<Vector2<u64>, (u8, i8)>,
+);
+
+fn read_event<T: Exo>(m: Medium, root: &Node, rf: &[RFault]) -> (Result<T, String>, Vec<FiredR>) {
     let unknown_vals: Vec<Node> = rf
         .iter()
         .map(|f| match f {
@@ -163,7 +243,7 @@ fn read_event<T: DeserializeOwned>(m: Medium, root: &Node, rf: &[RFault]) -> (Re
         })
         .collect();
     let env = ReadEnv::new(m, root, rf, &unknown_vals, false);
-    let r = catch_unwind(AssertUnwindSafe(|| T::deserialize(env.de())));
+    let r = catch_unwind(AssertUnwindSafe(|| T::de(env.de())));
     let res = match r {
         Ok(Ok(v)) => Ok(v),
         Ok(Err(e)) => Err(e.to_string()),
@@ -173,12 +253,7 @@ fn read_event<T: DeserializeOwned>(m: Medium, root: &Node, rf: &[RFault]) -> (Re
     (res, st.fired)
 }
 
-fn case<V, R>(name: &str, val: Decomposed<V, R>, rep: &mut ExoticReport, only: Option<&str>)
-where
-    V: VectorSpace + Serialize + DeserializeOwned + Debug + PartialEq,
-    V::Scalar: Serialize + DeserializeOwned + Debug + PartialEq,
-    R: Serialize + DeserializeOwned + Debug + PartialEq,
-{
+fn case<T: Exo>(name: &str, val: T, rep: &mut ExoticReport, only: Option<&str>) {
     if let Some(o) = only {
         if o != name {
             return;
@@ -187,12 +262,11 @@ where
     rep.cases += 1;
     rep.case_names.push(name.to_string());
     let mut cx = Ctx { case: name, rep };
-    type D<V, R> = Decomposed<V, R>;
 
     // ---------------- event-level medium ----------------
     for (mname, m) in media() {
         let mut st = Store::new(m, &[]);
-        let w = catch_unwind(AssertUnwindSafe(|| val.serialize(&mut st)));
+        let w = catch_unwind(AssertUnwindSafe(|| val.ser(&mut st)));
         cx.eval();
         let wsteps = st.steps();
         let saw_enum = st.saw_enum;
@@ -221,7 +295,7 @@ where
         }
         // A1
         cx.eval();
-        let (r, _) = read_event::<D<V, R>>(m, &root, &[]);
+        let (r, _) = read_event::<T>(m, &root, &[]);
         let mut rsteps = 0u32;
         match &r {
             Ok(v2) if same(v2, &val) => {}
@@ -230,14 +304,14 @@ where
         {
             // count read steps of the fault-free read
             let env = ReadEnv::new(m, &root, &[], &[], false);
-            let _ = catch_unwind(AssertUnwindSafe(|| D::<V, R>::deserialize(env.de()).map(|_| ())));
+            let _ = catch_unwind(AssertUnwindSafe(|| T::de(env.de()).map(|_| ())));
             rsteps = rsteps.max(env.st.borrow().step);
         }
         // A3: every order
         for p in PERMS {
             cx.eval();
             let rf = [RFault::Reorder { path: vec![], perm: p.to_vec() }];
-            let (r, _) = read_event::<D<V, R>>(m, &root, &rf);
+            let (r, _) = read_event::<T>(m, &root, &rf);
             match &r {
                 Ok(v2) if same(v2, &val) => {}
                 other => cx.fail(format!("{}: order {:?}", mname, p), "A3", format!("{:?}", other)),
@@ -249,7 +323,7 @@ where
             cx.eval();
             let idx: Vec<u8> = (0..3u8).filter(|i| mask & (1 << i) != 0).collect();
             let rf = [RFault::Drop { path: vec![], idx: idx.clone() }];
-            let (r, _) = read_event::<D<V, R>>(m, &root, &rf);
+            let (r, _) = read_event::<T>(m, &root, &rf);
             if let Ok(v2) = &r {
                 cx.fail(format!("{}: entries {:?} never delivered", mname, idx), "A4", format!("Ok({:?})", v2));
             }
@@ -260,7 +334,7 @@ where
                 for (key, uv) in [("extra", UVal::Num), ("rot\0", UVal::CopyOf(1)), ("Scale", UVal::CopyOf(0)), ("disp ", UVal::CopyOf(2))] {
                     cx.eval();
                     let rf = [RFault::Unknown { path: vec![], pos, key: key.to_string(), val: uv }];
-                    let (r, _) = read_event::<D<V, R>>(m, &root, &rf);
+                    let (r, _) = read_event::<T>(m, &root, &rf);
                     if let Ok(v2) = &r {
                         cx.fail(format!("{}: unknown key {:?} at position {}", mname, key, pos), "A5", format!("Ok({:?})", v2));
                     }
@@ -273,10 +347,10 @@ where
                 cx.eval();
                 let wf = [WFault { step: k, kind }];
                 let mut st = Store::new(m, &wf);
-                let w = catch_unwind(AssertUnwindSafe(|| val.serialize(&mut st)));
+                let w = catch_unwind(AssertUnwindSafe(|| val.ser(&mut st)));
                 if let Ok(Ok(())) = w {
                     let whole = match st.root.take() {
-                        Some(r2) if st.dangling() == 0 => matches!(read_event::<D<V, R>>(m, &r2, &[]).0, Ok(ref v2) if same(v2, &val)),
+                        Some(r2) if st.dangling() == 0 => matches!(read_event::<T>(m, &r2, &[]).0, Ok(ref v2) if same(v2, &val)),
                         _ => false,
                     };
                     if !whole {
@@ -289,7 +363,7 @@ where
         for k in 0..rsteps {
             cx.eval();
             let rf = [RFault::Err { step: k, permanent: false }];
-            let (r, fired) = read_event::<D<V, R>>(m, &root, &rf);
+            let (r, fired) = read_event::<T>(m, &root, &rf);
             let before_all = fired.iter().any(|f| f.top_done & 0b111 != 0b111);
             match &r {
                 Ok(v2) if before_all => cx.fail(format!("{}: read step {} fails before all fields arrived", mname, k), "A7", format!("Ok({:?})", v2)),
@@ -300,41 +374,39 @@ where
     }
 
     // ---------------- real serde_json ----------------
-    let parts = (serde_json::to_string(&val.scale), serde_json::to_string(&val.rot), serde_json::to_string(&val.disp));
-    let whole = serde_json::to_string(&val);
     cx.eval();
-    let (ts, tr, td, text) = match (parts, whole) {
-        ((Ok(a), Ok(b), Ok(c)), Ok(t)) => (a, b, c, t),
+    let (ts, tr, td, text) = match (val.parts(), val.json()) {
+        (Ok([a, b, c]), Ok(t)) => (a, b, c, t),
         other => {
             cx.fail("json: to_string".to_string(), "A1", format!("{:?}", other));
             return;
         }
     };
-    let check_ok = |cx: &mut Ctx, what: String, id: &'static str, r: Result<D<V, R>, String>| {
+    let check_ok = |cx: &mut Ctx, what: String, id: &'static str, r: Result<T, String>| {
         cx.eval();
         match &r {
             Ok(v2) if same(v2, &val) => {}
             other => cx.fail(what, id, format!("{:?}", other)),
         }
     };
-    check_ok(&mut cx, "json: from_str of to_string".into(), "A1", serde_json::from_str(&text).map_err(|e| e.to_string()));
-    check_ok(&mut cx, "json: from_reader of to_string".into(), "A1", serde_json::from_reader(text.as_bytes()).map_err(|e| e.to_string()));
-    check_ok(&mut cx, "json: from_slice of to_vec_pretty".into(), "A1", serde_json::to_vec_pretty(&val).map_err(|e| e.to_string()).and_then(|b| serde_json::from_slice(&b).map_err(|e| e.to_string())));
+    check_ok(&mut cx, "json: from_str of to_string".into(), "A1", T::from_str(&text));
+    check_ok(&mut cx, "json: from_reader of to_string".into(), "A1", T::from_reader(text.as_bytes()));
+    check_ok(&mut cx, "json: from_slice of to_vec_pretty".into(), "A1", val.json_pretty().and_then(|b| T::from_slice(&b)));
     // (serde_json::Value cannot hold 128-bit integers for any type)
     if !text.contains("340282366920938463463374607431768211455") && !text.contains("-170141183460469231731687303715884105728") {
-        check_ok(&mut cx, "json: from_value of to_value".into(), "A1", serde_json::to_value(&val).map_err(|e| e.to_string()).and_then(|v| serde_json::from_value(v).map_err(|e| e.to_string())));
+        check_ok(&mut cx, "json: from_value of to_value".into(), "A1", val.via_value());
     }
     let fields = [("scale", ts.as_str()), ("rot", tr.as_str()), ("disp", td.as_str())];
     for p in PERMS {
         let t = format!("{{{}}}", p.iter().map(|i| format!("\"{}\":{}", fields[*i as usize].0, fields[*i as usize].1)).collect::<Vec<_>>().join(","));
-        check_ok(&mut cx, format!("json: order {:?}: {}", p, t), "A3", serde_json::from_str(&t).map_err(|e| e.to_string()));
+        check_ok(&mut cx, format!("json: order {:?}: {}", p, t), "A3", T::from_str(&t));
         // an unknown key in front, in the middle, at the end
         for pos in 0..4usize {
             let mut items: Vec<String> = p.iter().map(|i| format!("\"{}\":{}", fields[*i as usize].0, fields[*i as usize].1)).collect();
             items.insert(pos, format!("\"rotation\":{}", tr));
             let t = format!("{{{}}}", items.join(","));
             cx.eval();
-            if let Ok(v2) = serde_json::from_str::<D<V, R>>(&t) {
+            if let Ok(v2) = T::from_str(&t) {
                 cx.fail(format!("json: unknown key at {}: {}", pos, t), "A5", format!("Ok({:?})", v2));
             }
         }
@@ -345,7 +417,7 @@ where
             (0..3).filter(|i| mask & (1 << i) == 0).map(|i| format!("\"{}\":{}", fields[i].0, fields[i].1)).collect::<Vec<_>>().join(",")
         );
         cx.eval();
-        if let Ok(v2) = serde_json::from_str::<D<V, R>>(&t) {
+        if let Ok(v2) = T::from_str(&t) {
             cx.fail(format!("json: omission mask {:03b}: {}", mask, t), "A4", format!("Ok({:?})", v2));
         }
     }
@@ -355,7 +427,7 @@ where
             continue;
         }
         cx.eval();
-        if let Ok(v2) = serde_json::from_str::<D<V, R>>(&text[..cut]) {
+        if let Ok(v2) = T::from_str(&text[..cut]) {
             cx.fail(format!("json: text cut after {} bytes", cut), "A7", format!("Ok({:?})", v2));
         }
     }
